@@ -101,8 +101,14 @@ def allowedSpecial (grp pkg callee : String) : Bool :=
   else if pkg == "time" then
     -- no sleeping, no timers; values, formatting and arithmetic only. `time.Now` is admitted here because every
     -- one of its callers on the linting path must be in `documentedSensitive` (theorem `sensitive_calls_documented`).
+    -- Nothing that yields a value in the process's local zone or consults the zone database either (`time.Unix…`, `Local`,
+    -- `In`, `LoadLocation`, the variable `time.Local`): calendar arithmetic on such a value depends on TZ / /etc/localtime.
+    -- Parsed times carry UTC or the fixed offset they were written with; `Location()` only reads that.
     !(callee == "time.Since" || callee == "time.Until" || callee == "time.Sleep" || callee == "time.After"
-      || callee == "time.Tick" || callee == "time.NewTimer" || callee == "time.NewTicker" || callee == "time.AfterFunc")
+      || callee == "time.Tick" || callee == "time.NewTimer" || callee == "time.NewTicker" || callee == "time.AfterFunc"
+      || callee == "time.Unix" || callee == "time.UnixMilli" || callee == "time.UnixMicro" || callee == "(time.Time).Local"
+      || callee == "(time.Time).In" || callee == "time.LoadLocation" || callee == "time.LoadLocationFromTZData"
+      || callee == "time.ParseInLocation" || callee == "var time.Local")
   else if pkg == "github.com/zmap/zcrypto/x509" then
     -- parsed-object accessors yes; anything that verifies a signature or builds chains no
     !(startsWithK callee "(*github.com/zmap/zcrypto/x509.Certificate).Check" || startsWithK callee "(*github.com/zmap/zcrypto/x509.Certificate).Verify"
